@@ -79,3 +79,42 @@ def classify(c, r):
     else:
         hd = head
     return f"{opt} env={env} {hd}"
+
+
+import re as _re
+
+_TOK = _re.compile(r"^(?:(\d+):)?([A-Za-z]+)@(\d+)$")
+_NONIO = lambda n: n not in ("ok", "Io", "panic", "m", "L")
+
+
+def equal(a, b):
+    """C01 distinguishes Ok, I/O errors, other errors and panics — not WHICH non-I/O error a call returns when several
+    apply (rect out of bounds vs surface too large), and not the threshold at which a small memory limit starts to
+    refuse (C07's subject). Tolerated therefore, per operation token: two different non-I/O error names at the same
+    reader position; and `MemoryLimitExceeded` on exactly one side. Everything else (header, format, layout, Ok/Io/panic
+    class, reader positions, cursor) is compared exactly up to the first one-sided refusal or the first I/O error
+    (after which the state of decoder and reader is documented as unspecified)."""
+    if a == b:
+        return True
+    ta, tb = a.split(" "), b.split(" ")
+    for x, y in zip(ta, tb):
+        if x == y:
+            m = _TOK.match(x)
+            if m and m.group(2) == "Io":
+                # the docs promise the reader position after success and after non-I/O errors only (decode docs "State of the
+                # reader"; Decoder: "not ... a known (working) state after an error"): what later calls
+                # return is not comparable (the oracle still demands Ok/Err without panic from every one of them)
+                return True
+            continue
+        mx, my = _TOK.match(x), _TOK.match(y)
+        if not mx or not my:
+            return False
+        nx, ny = mx.group(2), my.group(2)
+        if _NONIO(nx) and _NONIO(ny) and mx.group(3) == my.group(3):
+            continue
+        if (nx == "MemoryLimitExceeded") != (ny == "MemoryLimitExceeded"):
+            # one side was refused, the other went on: the two runs are in different states from here on, the
+            # rest of the sequence is not comparable (the oracle still judges every call of the implementation)
+            return True
+        return False
+    return len(ta) == len(tb)
